@@ -173,6 +173,9 @@ def run(db, chk):
                "multi-direction router writes beyond column 0", min_instances=399)
     chk.absorb(db, "C11", {"C11-P1"}, "C08-B4", "the block partition handed to workers never leaves the index "
                "range (shared with C11-P1)", min_instances=1)
+    chk.absorb(db, "C09", {"C09-P2"}, "C08-B5", "index scratch of the basin graph is reset at every update (shared "
+               "with C09-P2): positions left by a previous update index past the end of the edge list",
+               pred=lambda o: "basin_graph" in o["instance"], min_instances=20)
     # ---- B3
     resize_safe = {}
     for fn in db.fns(POOL + "::resize"):
